@@ -173,7 +173,7 @@ def run_unit(ctx, unit):
     st.see("exit_codes", rc)
 
 
-READABLE_LAYOUTS = ["linked-directory", "relative-linked-directory", "linked-file", "linked-directory-argument", "nested-directories"]
+READABLE_LAYOUTS = ["linked-directory", "relative-linked-directory", "linked-file", "linked-directory-argument", "nested-directories", "non-utf8-name"]
 
 
 def run_terminal(ctx, unit):
@@ -192,6 +192,14 @@ def run_terminal(ctx, unit):
         for ln in lines:
             os.write(m, ln + b"\n")
         os.write(m, b"\x04")
+        # end of input is end of input: what is typed afterwards belongs to whoever reads the terminal next
+        import time
+        time.sleep(0.3)
+        if p.poll() is None:
+            try:
+                os.write(m, b'"typed after the end"\n\x04')
+            except OSError:
+                pass
         try:
             out, err = p.communicate(timeout=30)
         except subprocess.TimeoutExpired:
@@ -212,6 +220,35 @@ def run_terminal(ctx, unit):
                      unit, {"args": unit["targs"]})
         return
     st.see("nontrivial", ("terminal", tuple(unit["targs"]), len(lines)))
+
+
+def run_positioned(ctx, unit):
+    """Standard input is an open file whose offset is not 0 (a caller read a header first): the input is what lies behind the
+    offset - the same rows as for those bytes through a pipe."""
+    import tempfile
+    st = ctx.stats
+    binary = ctx.params["binary"]
+    os.makedirs(os.path.join(core.TARGET, "scratch"), exist_ok=True)
+    head = unit["head"]
+    body = b"\n".join(unit["lines"]) + b"\n"
+    with tempfile.NamedTemporaryFile(dir=os.path.join(core.TARGET, "scratch"), prefix="c20-pos-") as f:
+        f.write(head + body)
+        f.flush()
+        fd = os.open(f.name, os.O_RDONLY)
+        try:
+            os.lseek(fd, len(head), os.SEEK_SET)
+            p = subprocess.run([binary] + unit["targs"], stdin=fd, stdout=subprocess.PIPE, stderr=subprocess.PIPE, timeout=60)
+        finally:
+            os.close(fd)
+    ref = subprocess.run([binary] + unit["targs"], input=body, stdout=subprocess.PIPE, stderr=subprocess.PIPE, timeout=60)
+    st.count("spawns", 2)
+    st.count("conclusive")
+    st.count("positioned_stdin_runs")
+    if p.returncode != ref.returncode or p.stdout != ref.stdout or p.stderr != ref.stderr:
+        st.violation("positioned-stdin", "stdin = a file positioned behind a %d-byte header: status %d, stdout %r; the same bytes through a pipe: status %d, stdout %r" % (
+            len(head), p.returncode, p.stdout[:200], ref.returncode, ref.stdout[:200]), unit, {"args": unit["targs"]})
+        return
+    st.see("nontrivial", ("positioned", tuple(unit["targs"]), len(head)))
 
 
 def run_unreadable(ctx, unit):
@@ -278,6 +315,13 @@ def run_unreadable(ctx, unit):
             elif kind == "linked-directory-argument":
                 os.symlink(os.path.join(d, "real"), os.path.join(d, "direct"))
                 target = os.path.join(d, "direct")
+            elif kind == "non-utf8-name":
+                # a readable file whose name is not UTF-8, met inside a directory argument
+                import shutil as _sh
+                _sh.copy(good, os.path.join(d, "plain.json"))
+                os.rename(good, os.path.join(os.fsencode(real), b"caf\xe9.json"))
+                good = os.path.join(d, "plain.json")       # (the reference run names a copy: such a name cannot be an argument)
+                target = os.path.join(d, "real")
             else:   # nested-directories with empty neighbours
                 os.makedirs(os.path.join(d, "real", "empty", "er"))
                 target = os.path.join(d, "real")
@@ -329,6 +373,12 @@ def worker(ctx):
                     "targs": ctx.rng.choice(([], [], [], ["--unique"], ["-c", ".=v"]))}
             run_terminal(ctx, unit)
             continue
+        if ctx.rng.random() < 0.03:
+            unit = {"positioned": True, "head": ctx.rng.choice((b"header v1\n", b'"skip me"\n', b"# " + b"x" * 9000 + b"\n", b"{")),
+                    "lines": ctx.rng.sample([b'{"a": 1}', b"[1, 2]", b'"x"', b"7", b"null", b'{"k": {"l": []}}', b"true"], ctx.rng.choice((1, 3, 5))),
+                    "targs": ctx.rng.choice(([], ["--unique"], ["-c", ".=v", "-c", "&index=i"], ["--on-error", "stderr"]))}
+            run_positioned(ctx, unit)
+            continue
         if ctx.rng.random() < 0.2:
             unit = {"unreadable": ctx.rng.choice(["stdin-directory", "missing-file", "missing-second-file", "unreadable-file", "socket-file", "socket-in-directory"] + READABLE_LAYOUTS),
                     "policy": ctx.rng.choice(POLICIES), "config": ctx.rng.choice(VALID), "values": [], "gaps": [[]], "wsseed": 0, "sep": "\n", "sink": "pipe",
@@ -364,6 +414,8 @@ def replay(env, unit):
         ctx.params["binary"] = binary
         if unit.get("terminal"):
             run_terminal(ctx, unit)
+        elif unit.get("positioned"):
+            run_positioned(ctx, unit)
         elif unit.get("unreadable"):
             run_unreadable(ctx, unit)
         else:
